@@ -144,6 +144,13 @@ def run(check):
             jobs.append({"cfg": {"mds": mds, "chain": chain is True, "smallcert": chain == "small"},
                          "script": sc[:16] + [["close", "s", 0], ["drop", 0], ["timer", "s"]], "seed": 22,
                          "hs_adv": True, "profile": "corpus-silent-client-server-close"})
+    # a server that pushes data as soon as the protocol is negotiated (0.5-RTT), to a client that falls silent: datagram
+    # sizes swept so that the handshake flight ends close to the end of a datagram in some of them (trailing padding counts)
+    for mds in (1200, 1350):
+        for pad in [True] + list(range(40, 700, 40)):        # certificate sizes: the flight ends 0..600 bytes before the datagram does
+            sc = [["deliver", 0]] + [["drop", 0]] * 12 + [["timer", "s"]] + [["drop", 0]] * 6
+            jobs.append({"cfg": {"mds": mds, "chain": False, "smallcert": pad, "on_negotiated": {"s": [3, 9000]}}, "script": sc,
+                         "seed": 23, "hs_adv": True, "profile": "corpus-half-rtt-data-silent-client"})
     jobs += zrtt_jobs(rnd, 1 if check.quick else 20)
     results = runner.run_many(job_fn, jobs)
     check.cov["zero_rtt_packets_on_the_wire"] = sum(r["zrtt"] for r in results)
